@@ -89,6 +89,15 @@ def bounded_segments(chk, seed, thorough):
             cases.append({"kind": "garbage-last-line", "text": text + g + "\n", "name": "a.c", "g": g})
             cases.append({"kind": "garbage-last-line-no-newline", "text": text + g, "name": "a.c", "g": g})
     cases.append({"kind": "conforming", "text": P.conforming_h(), "name": "a.h"})
+    # statement count known by construction (conforming or not): every body shape alone, last in
+    # the function body, and in pairs
+    names = list(P.SHAPES)
+    combos = [[n] for n in names] + [[a, b] for a in names for b in names if a != b][:: (1 if thorough else 5)]
+    for combo in combos:
+        for tail in (True, False):
+            text, want = P.shaped_program(combo, tail_return=tail)
+            cases.append({"kind": "counted", "text": text, "name": "a.c", "want": want, "shape": "+".join(combo) +
+                          ("" if tail else " (last statement of the body)")})
     t0 = time.time()
     res = native_batch([{"op": "segments", "text": c["text"], "name": c["name"]} for c in cases])
     fails = []
@@ -118,6 +127,12 @@ def bounded_segments(chk, seed, thorough):
                         if c0 != 1 or lastk != "NEWLINE":
                             m = f"statement {rule} at line {l0} starts at column {c0} / ends with {lastk}"
                             break
+            if m is None and c["kind"] == "counted" and not r["fatal"]:
+                if len(r["pops"]) != c["want"]:
+                    m = (f"a function body made of [{c['shape']}] is split into {len(r['pops'])} statements, "
+                         f"{c['want']} by construction")
+                elif r["scope_end"] != "GlobalScope":
+                    m = f"nesting depth is not back at file level after a body made of [{c['shape']}] ({r['scope_end']})"
             if m is None and c["kind"].startswith("garbage"):
                 if not r["fatal"] and r["status"] == "OK":
                     m = f"unrecognisable text {c['g']!r} ({c['kind']}) was dropped and the file is OK!"
@@ -185,7 +200,7 @@ def run(tier, seed, replay):
                     "boundary or on the last line (with / without newline) is fatal or reported, never OK!",
                     f"{len([c for c in cases if c['kind'] == 'conforming'])} generated conforming files x "
                     "{statement boundaries} x {garbage lexemes}", len(cases), fails,
-                    nontrivial=len({(c["kind"], c.get("g")) for c in cases}),
+                    nontrivial=len({(c["kind"], c.get("g"), c.get("shape")) for c in cases}),
                     samples=[{"kind": c["kind"], "g": c.get("g")} for c in cases[1:4]], time_s=dt)
     explained = any(i.status == "failed" for i in chk.items)
     if fails and not explained:
